@@ -413,13 +413,22 @@ def rule_loop_progress(prog, run, rid):
                 continue
             if dom is None:
                 dom = f.dom()
-            head = b['id']
             body_entry = b['succs'][0] if t['k'] != 'do' else None
             if body_entry is None:
                 continue
+            preds = f.preds_map()
+            # the loop head is the target of the back edge: with a short-circuit condition (a && b) the terminator sits on the block of the last operand
+            # while the body jumps back to the block of the first one
+            head = b['id']
+            best = -1
+            for h in f.blocks:
+                if h != b['id'] and ('b', h) not in dom.get(('b', b['id']), set()):
+                    continue
+                if any((('b', h) in dom.get(('b', u), set()) or u == h) and (u == body_entry or ('b', body_entry) in dom.get(('b', u), set())) for u in preds.get(h, ())):
+                    if len(dom.get(('b', h), set())) > best:
+                        best, head = len(dom.get(('b', h), set())), h
             in_loop = {x for x in f.blocks if ('b', head) in dom.get(('b', x), set())}
             # blocks of the loop = dominated by the head and able to reach it again
-            preds = f.preds_map()
             reach_head = set()
             stack = [head]
             while stack:
@@ -432,12 +441,30 @@ def rule_loop_progress(prog, run, rid):
                 n_loops += 1
                 run.instance(rid)
                 assigns = set()
+                loop_blocks = reach_head | {head, body_entry}
+                cand = []
                 for i, n in f.all_nodes('assign'):
                     l = f.nodes[f.skip(n['l'])]
                     if l['k'] == 'var' and l.get('decl') == decl and f.pos(i):
-                        assigns.add(f.pos(i)[0])
+                        cand.append((i, n['r']))
                 for i, n in f.calls():
-                    if n.get('op') == '=' and n.get('opargs') and f.nodes[f.skip(n['opargs'][0])].get('decl') == decl and f.pos(i):
+                    if n.get('op') == '=' and len(n.get('opargs', [])) == 2 and f.nodes[f.skip(n['opargs'][0])].get('decl') == decl and f.pos(i):
+                        cand.append((i, n['opargs'][1]))
+                # locals that change inside the loop (a value computed from them moves)
+                moving = {decl}
+                for i, n in f.all_nodes('assign'):
+                    l = f.nodes[f.skip(n['l'])]
+                    if l['k'] == 'var' and f.pos(i) and f.pos(i)[0] in loop_blocks:
+                        moving.add(l.get('decl'))
+                for i, n in f.all_nodes('un'):
+                    if n.get('op') in ('pre++', 'post++', 'pre--', 'post--') and f.pos(i) and f.pos(i)[0] in loop_blocks:
+                        moving.add(f.nodes[f.skip(n['e'])].get('decl'))
+                for i, rhs in cand:
+                    # an advance is computed from the node itself (x = x.nextSibling...) or from something that moves; re-computing the same value from
+                    # loop-invariant operands (x = parent.nextSiblingElement(name)) restarts the search and never terminates
+                    if any(f.nodes[j]['k'] == 'var' and f.nodes[j].get('decl') in moving for j in f.walk(rhs)) \
+                            or any(f.nodes[j]['k'] == 'call' and not (f.sym(f.nodes[j]) or {}).get('const', True) and f.nodes[j].get('obj') is not None
+                                   and f.nodes[f.skip(f.nodes[j]['obj'])]['k'] == 'var' for j in f.walk(rhs)):
                         assigns.add(f.pos(i)[0])
                 # search a path body_entry -> head through loop blocks that never passes an assigning block
                 seen = set()
@@ -628,6 +655,20 @@ def run(prog, run):
         run.rules[r4]['obligations'] += r['discharged']
         run.rules[r4]['discharged'] += r['discharged']
         run.rules[r4]['samples'] += r['samples'][:3]
+
+    r9 = run.rule('C02.R9', 'a table indexed by a value of an enum (operator[], at()) has an entry for every enumerator the index can hold at that point: no out-of-range read and '
+                            'no std::out_of_range from a parser (= the index clause of C01.R3)', floor=10)
+    sub = type(run)(run.prop, run.tier, run.seed)
+    C01.rule_tables(prog, sub)
+    for v in sub.violations:
+        if '#index:' in v['key']:
+            run.rules[r9]['matched'] += 1
+            run.violation(r9, v['key'], v['site'], v['what'], v['path'])
+    for r in sub.rules.values():
+        run.rules[r9]['matched'] += r['matched']
+        run.rules[r9]['obligations'] += r['discharged']
+        run.rules[r9]['discharged'] += r['discharged']
+        run.rules[r9]['samples'] += r['samples'][:3]
 
     r5 = run.rule('C02.R5', 'parsers terminate on sibling lists: every loop guarded by isNull() of a local DOM node advances that node on every path back to '
                             'the loop head (continue included)', floor=18)
